@@ -147,9 +147,9 @@ static void s3_buffers(const Args& a, Counters& c) {
       TimeOffset o = tz.getUtcOffset(t);
       uint8_t hw = proc.getTransitionHighWater();
       if (hw > maxhw) maxhw = hw;
-      if (!(hw < bufSize) || !(hw < 8)) violation(std::string("c09:transition-buffer-high-water:") + ExtDb::name(info), fmt("{\"zone\":\"%s\",\"year\":%d,\"highWater\":%d,\"transitionBufSize\":%d,\"capacity\":8}", ExtDb::name(info), y, hw, bufSize));
+      if (!(hw < bufSize) || !(hw < F::capacity())) violation(std::string("c09:transition-buffer-high-water:") + ExtDb::name(info), fmt("{\"zone\":\"%s\",\"year\":%d,\"highWater\":%d,\"transitionBufSize\":%d,\"capacity\":%d}", ExtDb::name(info), y, hw, bufSize, F::capacity()));
       int ip = F::indexPrior(proc), ic = F::indexCandidates(proc), fr = F::indexFree(proc);
-      if (!(ip <= ic && ic <= fr && fr <= 8)) violation(std::string("c09:transition-storage-indices:") + ExtDb::name(info), fmt("{\"zone\":\"%s\",\"year\":%d,\"prior\":%d,\"candidates\":%d,\"free\":%d}", ExtDb::name(info), y, ip, ic, fr));
+      if (!(ip <= ic && ic <= fr && fr <= F::capacity())) violation(std::string("c09:transition-storage-indices:") + ExtDb::name(info), fmt("{\"zone\":\"%s\",\"year\":%d,\"prior\":%d,\"candidates\":%d,\"free\":%d}", ExtDb::name(info), y, ip, ic, fr));
       if (y >= 2000 && y < 2050 && o.isError()) violation(std::string("c09:in-range-year-error:") + ExtDb::name(info), fmt("{\"year\":%d}", y));
       c.add("s3_extended_zone_years");
     }
@@ -165,7 +165,7 @@ static void s3_buffers(const Args& a, Counters& c) {
       uint32_t before = verif_dropped(proc);
       TimeOffset o = tz.getUtcOffset(t);
       int n = BasicZoneProcessorTest_init::numTransitions(proc);
-      if (verif_dropped(proc) != before || n > 5) violation(std::string("c09:basic-cache-overflow:") + BasicDb::name(info), fmt("{\"zone\":\"%s\",\"year\":%d,\"dropped\":%u,\"numTransitions\":%d}", BasicDb::name(info), y, verif_dropped(proc) - before, n));
+      if (verif_dropped(proc) != before || n > BasicZoneProcessorTest_init::capacity()) violation(std::string("c09:basic-cache-overflow:") + BasicDb::name(info), fmt("{\"zone\":\"%s\",\"year\":%d,\"dropped\":%u,\"numTransitions\":%d}", BasicDb::name(info), y, verif_dropped(proc) - before, n));
       if (y >= 2000 && y < 2050 && o.isError()) violation(std::string("c09:in-range-year-error:") + BasicDb::name(info), fmt("{\"year\":%d}", y));
       if (n > (int)maxhw - 100 && (uint64_t)n > c.c["max_basic_cache_slots_used"]) c.c["max_basic_cache_slots_used"] = n;
       c.add("s3_basic_zone_years");
